@@ -24,7 +24,21 @@ func main() {
 	noEvidence := flag.Bool("no-evidence", false, "do not write evidence (used by the self-validation children)")
 	list := flag.Bool("list", false, "list implemented properties")
 	selftest := flag.Bool("selftest", false, "run the overlay self-validation variants of -prop and exit")
+	genRef := flag.Bool("gen-reference", false, "write <verif>/reference_symbols.json from the tree at -repo (the reference for rename canonicalisation) and exit")
 	flag.Parse()
+	if *genRef {
+		c, err := Load(*repo, nil)
+		if err != nil {
+			fmt.Printf("BROKEN: %v\n", err)
+			os.Exit(2)
+		}
+		if err := writeReference(c, *verif); err != nil {
+			fmt.Printf("BROKEN: %v\n", err)
+			os.Exit(2)
+		}
+		fmt.Println("reference symbols written to", referenceFile(*verif))
+		return
+	}
 	if *list {
 		ids := []string{}
 		for id := range props {
@@ -93,7 +107,7 @@ func run(prop, tier, repo, verif string, ov map[string][]byte, f propFunc, noEvi
 			code = 2
 		}
 	}()
-	c, err := Load(repo, ov)
+	c, err := LoadCanonical(repo, verif, ov)
 	if err != nil {
 		if ov != nil {
 			fmt.Printf("VARIANT-DOES-NOT-COMPILE: %v\n", err)
